@@ -84,7 +84,20 @@ func c18StartFirst(s *schedules) {
 //verif:timers real
 //verif:timeout 600
 //verif:replace (*$M/internal/raterun.schedules).startFirst c18StartFirst
-func VerifC18_ScheduleTiming() {
+func VerifC18_ScheduleTiming() { c18ScheduleTiming() }
+
+// VerifC18_ScheduleTiming4: the same harness with 4 loop rounds of the runner goroutine. The smaller bound is kept
+// next to the larger one because the encoding of 5 rounds can exceed the per-harness wall limit on changed code (seeded
+// change C18-timer-reset: decided in 40 s at 4 rounds, not within 15 min at 5), while seeded change C18b needs the 5th.
+//
+//verif:conc
+//verif:unroll 4
+//verif:timers real
+//verif:timeout 600
+//verif:replace (*$M/internal/raterun.schedules).startFirst c18StartFirst
+func VerifC18_ScheduleTiming4() { c18ScheduleTiming() }
+
+func c18ScheduleTiming() {
 	slow, fast := 0, 0
 	c18Restarts = 0
 	r, err := New(func(freq time.Duration) {
